@@ -80,6 +80,19 @@ func executePlan(plan *Plan, replay bool, trace bool) (w *World, res *RunResult)
 			wal.step(st) // written ahead: if the process dies in this step the parent still has the plan
 			w.apply(st)
 		}
+		if plan.Config.LastExit && w.Cmt.Halted == "" {
+			// every validator (the anchor too) asks for everything back: a legal history of unlock
+			// requests whose validator updates the consensus engine must still be able to apply
+			for _, st := range []Step{mkStep("el.ops", w.genExitAllOps(), 0), mkStep("block", &BlockArgs{}, 0), mkStep("block", &BlockArgs{}, 0), mkStep("block", &BlockArgs{}, 0)} {
+				st.I = len(plan.Steps)
+				plan.Steps = append(plan.Steps, st)
+				wal.step(st)
+				w.apply(st)
+				if w.Cmt.Halted != "" {
+					break
+				}
+			}
+		}
 		wal.close()
 		if plan.Config.FaultFree && w.Cmt.Halted == "" {
 			// bounded liveness once the workload stops: plain blocks, then the queues must be empty
@@ -157,7 +170,7 @@ func (res *RunResult) collect(w *World) {
 
 func isAdversarialStep(k string) bool {
 	switch k {
-	case "rel.forged", "rel.replay", "rel.baddeposit", "rel.badwithdraw", "probe.fuzztx", "probe.fuzzproposal", "probe.admission", "el.raw":
+	case "rel.forged", "rel.replay", "rel.baddeposit", "rel.badwithdraw", "rel.bundle", "probe.fuzztx", "probe.fuzzproposal", "probe.admission", "el.raw":
 		return true
 	}
 	return false
